@@ -509,8 +509,8 @@ func validatorCase0(h *hctx, n, localIdx, pubIdx int, msg []byte, nonce uint64, 
 	}
 
 	unitsToTry := order
-	if len(unitsToTry) > h.f.Scale(3, 8) {
-		unitsToTry = unitsToTry[:h.f.Scale(3, 8)]
+	if len(unitsToTry) > h.f.Scale(4, 10) {
+		unitsToTry = unitsToTry[:h.f.Scale(4, 10)]
 	}
 	for _, i := range unitsToTry {
 		for _, c := range cs {
@@ -636,7 +636,7 @@ func secValidator(h *hctx, r *lib.RNG) {
 					continue
 				}
 				// small committees: every (local, publisher); larger: a sample
-				if n > 4 && !r.Chance(h.f.Scale(2, 6), n*(n-1)) && combos > 0 {
+				if n > 4 && !r.Chance(h.f.Scale(3, 10), n*(n-1)) && combos > 0 {
 					continue
 				}
 				combos++
